@@ -46,7 +46,11 @@ type User struct {
 func NewUser(s *Sim, sc *Scenario) *User {
 	u := &User{sim: s, sc: sc, ctx: context.Background(), Version: 1}
 	u.h = s.NewHandle("user", nil, false)
-	s.User = u
+	sc.user = u
+	if s.User == nil {
+		s.User = u
+	}
+	s.Users = append(s.Users, u)
 	s.actors = append(s.actors, u)
 	return u
 }
